@@ -95,6 +95,11 @@ def cond_to_intset(test: ast.AST, is_var: Callable[[ast.AST], bool], fold: Calla
         return cond_to_intset(test.operand, is_var, fold).complement()
     if isinstance(test, ast.Compare):
         operands = [test.left] + list(test.comparators)
+        if not any(_mentions_var(o, is_var) for o in operands):
+            v = fold(test)
+            if isinstance(v, bool):
+                return IntSet.all() if v else IntSet.empty()
+            raise NotInterval("comparison without the variable does not fold")
         acc = IntSet.all()
         for a, op, b in zip(operands, test.ops, operands[1:]):
             acc = acc.intersect(_cmp(a, op, b, is_var, fold))
@@ -102,7 +107,18 @@ def cond_to_intset(test: ast.AST, is_var: Callable[[ast.AST], bool], fold: Calla
     if is_var(test):
         # truthiness of an integer: v != 0
         return IntSet([(0, 0)]).complement()
+    # a sub-condition that does not mention the variable but folds to a constant
+    try:
+        v = fold(test)
+    except Exception:  # noqa: BLE001
+        v = None
+    if isinstance(v, bool):
+        return IntSet.all() if v else IntSet.empty()
     raise NotInterval(ast.dump(test))
+
+
+def _mentions_var(node: ast.AST, is_var) -> bool:
+    return any(is_var(x) for x in ast.walk(node))
 
 
 def _const(node: ast.AST, fold) -> int:
